@@ -129,7 +129,7 @@ CHECKS = {
              "Compose must resolve into the allowed set, every accessor equals a direct load of an acceptable file, is the same object on "
              "re-access after the files were replaced, and missing/undecodable files raise RuntimeError naming the location/file. "
              "ComposeAccess.tla: TLC explores every reachable state of the accessor machine (18 starting directories, up to 1 (quick) / 2 replaced "
-             "files or edits) and every history of length 3 (quick) / 4-5 per pair of kinds plus -simulate histories of length 12; each history "
+             "files or edits) and every history of length 3 per pair of kinds (thorough: also length 4 for the two-name kind) plus -simulate histories of length 12; each history "
              "runs on one real Compose over a real directory in the direct / compose/ / legacy layout, files really replaced, corrupted (six "
              "undecodable contents) or removed between accesses; document served, == direct load, identity, the caller's latest edit and the "
              "RuntimeError text are compared after every access.",
